@@ -30,7 +30,9 @@ func main() {
 	case "verify":
 		cmdVerify(os.Args[2:])
 	case "check":
-		os.Exit(cmdCheck(os.Args[2:]))
+		rc := cmdCheck(os.Args[2:])
+		cleanupScratch()
+		os.Exit(rc)
 	case "gen":
 		cmdGen(os.Args[2:])
 	default:
